@@ -31,20 +31,45 @@ type Mw struct {
 	ID  int  `json:"id"`
 }
 type GOpt struct {
-	Kind  string `json:"kind"` // mw | for | default | other
+	Kind  string `json:"kind"` // mw | for | default | other | flag | custom
 	Scope uint8  `json:"scope,omitempty"`
 	Ms    []Mw   `json:"ms,omitempty"`
 	Other int    `json:"other,omitempty"`
+	Flag  string `json:"flag,omitempty"` // FRedirect | FIgnore | FNoMethod | FAutoOptions
+	B     bool   `json:"b,omitempty"`
+	K     string `json:"k,omitempty"` // custom handler for KNoRoute | KNoMethod | KOptions
+}
+type TsOpt struct {
+	Redirect bool // else ignore
+	B        bool
 }
 type Op struct {
 	Kind string `json:"kind"` // handle | update | serve | rhandle | rhandlemw
 	Key  int    `json:"key"`
 	Hid  int    `json:"hid,omitempty"`
 	Ms   []Mw   `json:"ms,omitempty"`
-	K    int    `json:"k,omitempty"` // handler kind for serve: 0 route 1 noroute 2 nomethod 3 redirect 4 options
+	Ts   []TsOpt
+	K    int `json:"k,omitempty"` // request shape for serve: 0 exact 1 tsr 2 nomatch 3 post 4 options
 }
 
-var kindNames = []string{"KRoute", "KNoRoute", "KNoMethod", "KRedirect", "KOptions"}
+var shapeNames = []string{"SExact", "STsr", "SNoMatch", "SPost", "SOptions"}
+
+// optCache makes one fox.Option VALUE per distinct WithMiddleware argument list, so that the same value is
+// applied to routes and to routers (possibly several) within a scenario; nil = a fresh value per use.
+type optCache map[string]fox.Option
+
+func (c optCache) withMiddleware(rec *recorder, ms []Mw) fox.Option {
+	if c == nil {
+		return fox.WithMiddleware(mws(rec, ms)...)
+	}
+	key := hx.ListOf(ms, mwTerm)
+	if o, ok := c[key]; ok {
+		return o
+	}
+	o := fox.WithMiddleware(mws(rec, ms)...)
+	c[key] = o
+	return o
+}
 
 // ---------- event recording ----------
 
@@ -110,12 +135,12 @@ func classOf(pc uintptr) string {
 
 // ---------- building a router from the data ----------
 
-func buildRouter(rec *recorder, gopts []GOpt, rnd *hx.Rand) (*fox.Router, error, bool) {
+func buildRouter(rec *recorder, gopts []GOpt, cache optCache) (*fox.Router, error, bool) {
 	var opts []fox.GlobalOption
 	for _, g := range gopts {
 		switch g.Kind {
 		case "mw":
-			opts = append(opts, fox.WithMiddleware(mws(rec, g.Ms)...))
+			opts = append(opts, cache.withMiddleware(rec, g.Ms))
 		case "for":
 			opts = append(opts, fox.WithMiddlewareFor(fox.HandlerScope(g.Scope), mws(rec, g.Ms)...))
 		case "default":
@@ -129,19 +154,27 @@ func buildRouter(rec *recorder, gopts []GOpt, rnd *hx.Rand) (*fox.Router, error,
 			default:
 				opts = append(opts, fox.WithMaxRouteParamKeyBytes(100))
 			}
+		case "flag":
+			switch g.Flag {
+			case "FRedirect":
+				opts = append(opts, fox.WithRedirectTrailingSlash(g.B))
+			case "FIgnore":
+				opts = append(opts, fox.WithIgnoreTrailingSlash(g.B))
+			case "FNoMethod":
+				opts = append(opts, fox.WithNoMethod(g.B))
+			default:
+				opts = append(opts, fox.WithAutoOptions(g.B))
+			}
+		case "custom":
+			switch g.K {
+			case "KNoRoute":
+				opts = append(opts, fox.WithNoRouteHandler(runHandler(rec, 1)))
+			case "KNoMethod":
+				opts = append(opts, fox.WithNoMethodHandler(runHandler(rec, 2)))
+			default:
+				opts = append(opts, fox.WithOptionsHandler(runHandler(rec, 3)))
+			}
 		}
-	}
-	// options that make every handler kind reachable and observable; they register no middleware
-	// and are inserted at seeded positions among the others
-	enabling := []fox.GlobalOption{
-		fox.WithNoMethod(true), fox.WithAutoOptions(true), fox.WithRedirectTrailingSlash(true),
-		fox.WithNoRouteHandler(runHandler(rec, 1)), fox.WithNoMethodHandler(runHandler(rec, 2)), fox.WithOptionsHandler(runHandler(rec, 3)),
-	}
-	for _, e := range enabling {
-		pos := rnd.Intn(len(opts) + 1)
-		opts = append(opts, nil)
-		copy(opts[pos+1:], opts[pos:])
-		opts[pos] = e
 	}
 	var (
 		f        *fox.Router
@@ -175,16 +208,16 @@ func errTerm(err error) string {
 
 func pattern(key int) string { return fmt.Sprintf("/k%d", key) }
 
-func request(k, key int) *http.Request {
-	switch k {
+func request(shape, key int) *http.Request {
+	switch shape {
 	case 0:
 		return httptest.NewRequest(http.MethodGet, pattern(key), nil)
 	case 1:
-		return httptest.NewRequest(http.MethodGet, "/zz/nothing/here", nil)
-	case 2:
-		return httptest.NewRequest(http.MethodPost, pattern(key), nil)
-	case 3:
 		return httptest.NewRequest(http.MethodGet, pattern(key)+"/", nil)
+	case 2:
+		return httptest.NewRequest(http.MethodGet, "/zz/nothing/here", nil)
+	case 3:
+		return httptest.NewRequest(http.MethodPost, pattern(key), nil)
 	default:
 		return httptest.NewRequest(http.MethodOptions, pattern(key), nil)
 	}
@@ -199,7 +232,7 @@ func traceTerm(rec *recorder) string {
 }
 
 // runOp executes one operation and returns (observation term, alias term)
-func runOp(f *fox.Router, rec *recorder, o Op) (obs string, alias string) {
+func runOp(f *fox.Router, rec *recorder, o Op, cache optCache) (obs string, alias string) {
 	alias = "None"
 	defer func() {
 		if r := recover(); r != nil {
@@ -212,10 +245,18 @@ func runOp(f *fox.Router, rec *recorder, o Op) (obs string, alias string) {
 			rte *fox.Route
 			err error
 		)
+		ropts := []fox.RouteOption{cache.withMiddleware(rec, o.Ms)}
+		for _, t := range o.Ts {
+			if t.Redirect {
+				ropts = append(ropts, fox.WithRedirectTrailingSlash(t.B))
+			} else {
+				ropts = append(ropts, fox.WithIgnoreTrailingSlash(t.B))
+			}
+		}
 		if o.Kind == "handle" {
-			rte, err = f.Handle(http.MethodGet, pattern(o.Key), runHandler(rec, o.Hid), fox.WithMiddleware(mws(rec, o.Ms)...))
+			rte, err = f.Handle(http.MethodGet, pattern(o.Key), runHandler(rec, o.Hid), ropts...)
 		} else {
-			rte, err = f.Update(http.MethodGet, pattern(o.Key), runHandler(rec, o.Hid), fox.WithMiddleware(mws(rec, o.Ms)...))
+			rte, err = f.Update(http.MethodGet, pattern(o.Key), runHandler(rec, o.Hid), ropts...)
 		}
 		if err == nil {
 			rm, gm := fox.VerifRouteMws(rte), fox.VerifRouterMws(f)
@@ -258,17 +299,27 @@ func goptTerm(g GOpt) string {
 		return fmt.Sprintf("(GMwFor %s %s)", hx.N(uint64(g.Scope)), hx.ListOf(g.Ms, mwTerm))
 	case "default":
 		return "GDefault"
+	case "flag":
+		return fmt.Sprintf("(GFlag %s %s)", g.Flag, hx.Bool(g.B))
+	case "custom":
+		return fmt.Sprintf("(GCustomH %s)", g.K)
 	}
 	return "GOther"
+}
+func tsTerm(t TsOpt) string {
+	if t.Redirect {
+		return "(TRedirect " + hx.Bool(t.B) + ")"
+	}
+	return "(TIgnore " + hx.Bool(t.B) + ")"
 }
 func opTerm(o Op) string {
 	switch o.Kind {
 	case "handle":
-		return fmt.Sprintf("(OHandle %d %d %s)", o.Key, o.Hid, hx.ListOf(o.Ms, mwTerm))
+		return fmt.Sprintf("(OHandle %d %d %s %s)", o.Key, o.Hid, hx.ListOf(o.Ms, mwTerm), hx.ListOf(o.Ts, tsTerm))
 	case "update":
-		return fmt.Sprintf("(OUpdate %d %d %s)", o.Key, o.Hid, hx.ListOf(o.Ms, mwTerm))
+		return fmt.Sprintf("(OUpdate %d %d %s %s)", o.Key, o.Hid, hx.ListOf(o.Ms, mwTerm), hx.ListOf(o.Ts, tsTerm))
 	case "serve":
-		return fmt.Sprintf("(OServe %s %d)", kindNames[o.K], o.Key)
+		return fmt.Sprintf("(OServe %s %d)", shapeNames[o.K], o.Key)
 	case "rhandle":
 		return fmt.Sprintf("(ORouteHandle %d)", o.Key)
 	}
@@ -320,6 +371,9 @@ func (g *gen) scope() uint8 {
 		return uint8(g.rnd.Intn(256))
 	}
 }
+var flagNames = []string{"FRedirect", "FIgnore", "FNoMethod", "FAutoOptions"}
+var customKinds = []string{"KNoRoute", "KNoMethod", "KOptions"}
+
 func (g *gen) gopts(nilPct int) []GOpt {
 	n := g.rnd.Range(0, 5)
 	if g.rnd.Pct(10) {
@@ -328,15 +382,55 @@ func (g *gen) gopts(nilPct int) []GOpt {
 	var out []GOpt
 	for i := 0; i < n; i++ {
 		switch r := g.rnd.Intn(100); {
-		case r < 40:
+		case r < 30:
 			out = append(out, GOpt{Kind: "mw", Ms: g.ms(1, 3, nilPct)})
-		case r < 75:
+		case r < 58:
 			out = append(out, GOpt{Kind: "for", Scope: g.scope(), Ms: g.ms(1, 2, nilPct)})
-		case r < 87:
+		case r < 66:
 			out = append(out, GOpt{Kind: "default"})
-		default:
+		case r < 72:
 			out = append(out, GOpt{Kind: "other", Other: g.rnd.Intn(3)})
+		case r < 92:
+			out = append(out, GOpt{Kind: "flag", Flag: hx.Pick(g.rnd, flagNames), B: g.rnd.Pct(65)})
+		default:
+			out = append(out, GOpt{Kind: "custom", K: hx.Pick(g.rnd, customKinds)})
 		}
+	}
+	// most of the time also switch features on (independently, at seeded positions) so that every handler kind is reached often
+	if g.rnd.Pct(60) {
+		var extra []GOpt
+		switch g.rnd.Intn(3) {
+		case 0:
+			extra = append(extra, GOpt{Kind: "flag", Flag: "FRedirect", B: true})
+		case 1:
+			extra = append(extra, GOpt{Kind: "flag", Flag: "FIgnore", B: true})
+		}
+		if g.rnd.Pct(70) {
+			extra = append(extra, GOpt{Kind: "flag", Flag: "FNoMethod", B: true})
+		}
+		if g.rnd.Pct(70) {
+			extra = append(extra, GOpt{Kind: "flag", Flag: "FAutoOptions", B: true})
+		}
+		if g.rnd.Pct(60) {
+			extra = append(extra, GOpt{Kind: "custom", K: "KNoRoute"})
+		}
+		for _, e := range extra {
+			pos := g.rnd.Intn(len(out) + 1)
+			out = append(out, GOpt{})
+			copy(out[pos+1:], out[pos:])
+			out[pos] = e
+		}
+	}
+	return out
+}
+func (g *gen) ts() []TsOpt {
+	if g.rnd.Pct(45) {
+		return nil
+	}
+	n := g.rnd.Range(1, 2)
+	out := make([]TsOpt, n)
+	for i := range out {
+		out[i] = TsOpt{Redirect: g.rnd.Bool(), B: g.rnd.Pct(75)}
 	}
 	return out
 }
@@ -361,11 +455,11 @@ func (g *gen) ops() []Op {
 		case r < 35:
 			hid++
 			key := pickKey(false, 75)
-			out = append(out, Op{Kind: "handle", Key: key, Hid: hid, Ms: g.ms(0, 3, 3)})
+			out = append(out, Op{Kind: "handle", Key: key, Hid: hid, Ms: g.ms(0, 3, 3), Ts: g.ts()})
 			reg[key] = true
 		case r < 55:
 			hid++
-			out = append(out, Op{Kind: "update", Key: pickKey(true, 80), Hid: hid, Ms: g.ms(0, 3, 3)})
+			out = append(out, Op{Kind: "update", Key: pickKey(true, 80), Hid: hid, Ms: g.ms(0, 3, 3), Ts: g.ts()})
 		case r < 88:
 			out = append(out, Op{Kind: "serve", Key: pickKey(true, 70), K: g.rnd.Intn(5)})
 		case r < 94:
@@ -419,7 +513,7 @@ func raceChild(specJSON string) {
 		return
 	}
 	rec := &recorder{}
-	f, err, pan := buildRouter(rec, sp.GOpts, hx.NewRand(sp.Seed))
+	f, err, pan := buildRouter(rec, sp.GOpts, nil)
 	out := raceOut{RaceEnabled: raceEnabled, RoutesPerGroup: sp.Iter}
 	if err != nil || pan {
 		out.Err = fmt.Sprint("router: ", err, pan)
@@ -521,6 +615,18 @@ func runRace(sp raceSpec) (raceOut, bool, string) {
 	return out, race, where
 }
 
+func perm(r *hx.Rand, n int) []int {
+	p := make([]int, n)
+	for i := range p {
+		p[i] = i
+	}
+	for i := n - 1; i > 0; i-- {
+		j := r.Intn(i + 1)
+		p[i], p[j] = p[j], p[i]
+	}
+	return p
+}
+
 func tail(s string, n int) string {
 	if len(s) > n {
 		return s[len(s)-n:]
@@ -552,92 +658,235 @@ func main() {
 	seenCases := map[string]bool{}
 	nontrivial := 0
 
-	addSeq := func(g *gen, gopts []GOpt, ops []Op, kind string) {
-		rec := &recorder{}
-		f, err, pan := buildRouter(rec, gopts, rnd)
-		gterm := hx.ListOf(gopts, goptTerm)
-		var opTerms, human []string
-		mwsTerm := "[]"
-		nt := false
-		newErr := errTerm(err)
+	scopeKind := map[string]string{"(128)%N": "KRoute", "(64)%N": "KNoRoute", "(32)%N": "KNoMethod", "(16)%N": "KRedirect", "(8)%N": "KOptions"}
+	type routerRun struct {
+		gopts                  []GOpt
+		rec                    *recorder
+		cache                  optCache
+		f                      *fox.Router
+		newErr, mwsTerm, kind  string
+		ops                    []Op
+		opTerms, human         []string
+		nt                     bool
+	}
+	newRun := func(gopts []GOpt, kind string, rec *recorder, cache optCache) *routerRun {
+		r := &routerRun{gopts: gopts, rec: rec, cache: cache, kind: kind, mwsTerm: "[]"}
+		f, err, pan := buildRouter(rec, gopts, cache)
+		r.newErr = errTerm(err)
 		if pan {
-			newErr = "(Some ErrOther)"
+			r.newErr = "(Some ErrOther)"
 			err = errors.New("panic")
 		}
-		if err == nil {
-			gm := fox.VerifRouterMws(f)
-			ents := make([]string, len(gm.Entries))
-			for i, e := range gm.Entries {
-				ents[i] = fmt.Sprintf("(%s, %s, %s)", classOf(e.PC), hx.N(uint64(e.Scope)), hx.Bool(e.Global))
-			}
-			mwsTerm = hx.List(ents)
-			st.Count(fmt.Sprintf("globals:len=%d", gm.Len))
-			if gm.Cap > gm.Len {
-				st.Count("globals:spare-capacity")
-			}
-			for _, o := range ops {
-				obs, alias := runOp(f, rec, o)
-				opTerms = append(opTerms, fmt.Sprintf("(%s, %s, %s)", opTerm(o), obs, alias))
-				human = append(human, opTerm(o)+" => "+obs+" alias="+alias)
-				st.Count("op:" + o.Kind)
-				if o.Kind == "serve" {
-					st.Count("serve:" + kindNames[o.K])
-				}
-				if strings.Contains(obs, "Enter") || strings.Contains(obs, "Some Err") {
-					nt = true
-				}
-				if strings.Contains(obs, "Some Err") {
-					st.Count("outcome:" + strings.Trim(strings.TrimPrefix(obs, "(ObsErr (Some "), ")"))
-				}
-			}
-		} else {
-			nt = true
+		if err != nil {
+			r.nt = true
 			st.Count("new:error")
-			ops = nil
+			return r
 		}
-		term := fmt.Sprintf("(CSeq %s %s %s %s)", gterm, newErr, mwsTerm, hx.List(opTerms))
-		key := gterm + "|" + hx.ListOf(ops, opTerm)
+		r.f = f
+		gm := fox.VerifRouterMws(f)
+		ents := make([]string, len(gm.Entries))
+		for i, e := range gm.Entries {
+			ents[i] = fmt.Sprintf("(%s, %s, %s)", classOf(e.PC), hx.N(uint64(e.Scope)), hx.Bool(e.Global))
+		}
+		r.mwsTerm = hx.List(ents)
+		st.Count(fmt.Sprintf("globals:len=%d", gm.Len))
+		if gm.Cap > gm.Len {
+			st.Count("globals:spare-capacity")
+		}
+		return r
+	}
+	exec := func(r *routerRun, ops []Op) {
+		if r.f == nil {
+			return
+		}
+		for _, o := range ops {
+			obs, alias := runOp(r.f, r.rec, o, r.cache)
+			r.ops = append(r.ops, o)
+			r.opTerms = append(r.opTerms, fmt.Sprintf("(%s, %s, %s)", opTerm(o), obs, alias))
+			r.human = append(r.human, opTerm(o)+" => "+obs+" alias="+alias)
+			st.Count("op:" + o.Kind)
+			if o.Kind == "serve" {
+				st.Count("request:" + shapeNames[o.K])
+				reached := "unobserved(no emitter)"
+				for sc, k := range scopeKind {
+					if strings.HasSuffix(obs, "(Some "+sc+"))") {
+						reached = k
+					}
+				}
+				st.Count("reached:" + reached)
+			}
+			if (o.Kind == "handle" || o.Kind == "update") && len(o.Ts) > 0 {
+				st.Count("route-ts-options")
+			}
+			if strings.Contains(obs, "Enter") || strings.Contains(obs, "Some Err") {
+				r.nt = true
+			}
+			if strings.Contains(obs, "Some Err") {
+				st.Count("outcome:" + strings.Trim(strings.TrimPrefix(obs, "(ObsErr (Some "), ")"))
+			}
+		}
+	}
+	emit := func(r *routerRun) {
+		gterm := hx.ListOf(r.gopts, goptTerm)
+		term := fmt.Sprintf("(CSeq %s %s %s %s)", gterm, r.newErr, r.mwsTerm, hx.List(r.opTerms))
+		key := gterm + "|" + hx.ListOf(r.ops, opTerm) + "|" + r.kind
 		if seenCases[key] {
 			return
 		}
 		seenCases[key] = true
-		if nt {
+		if r.nt {
 			nontrivial++
 		}
-		h := fmt.Sprintf("fox.New(%s) err=%s router.mws=%s; ops: %s", gterm, newErr, mwsTerm, strings.Join(human, " ;; "))
+		h := fmt.Sprintf("[%s] fox.New(%s) err=%s router.mws=%s; ops: %s", r.kind, gterm, r.newErr, r.mwsTerm, strings.Join(r.human, " ;; "))
 		cs.Add(term, h)
-		st.Count("kind:" + kind)
-		for _, o := range gopts {
+		st.Count("kind:" + r.kind)
+		for _, o := range r.gopts {
 			st.Count("gopt:" + o.Kind)
 		}
-		if len(st.Samples) < 8 && nt && rnd.Pct(3) {
+		if len(st.Samples) < 8 && r.nt && rnd.Pct(3) {
 			st.Samples = append(st.Samples, h)
 		}
 	}
+	addSeq := func(gopts []GOpt, ops []Op, kind string) {
+		r := newRun(gopts, kind, &recorder{}, nil)
+		exec(r, ops)
+		emit(r)
+	}
+	sweep := func(key int) []Op {
+		var ops []Op
+		for k := 0; k < 5; k++ {
+			ops = append(ops, Op{Kind: "serve", Key: key, K: k})
+		}
+		return append(ops, Op{Kind: "rhandlemw", Key: key}, Op{Kind: "rhandle", Key: key})
+	}
+	allOn := []GOpt{{Kind: "flag", Flag: "FRedirect", B: true}, {Kind: "flag", Flag: "FNoMethod", B: true}, {Kind: "flag", Flag: "FAutoOptions", B: true},
+		{Kind: "custom", K: "KNoRoute"}, {Kind: "custom", K: "KNoMethod"}, {Kind: "custom", K: "KOptions"}}
 
-	nseq, nnil, iter := 500, 80, 150
+	nseq, nnil, iter, nshared := 400, 60, 150, 60
 	raceGlobals := []int{0, 1, 2, 3, 5, 7}
 	if tier == "thorough" {
-		nseq, nnil, iter = 6000, 600, 600
+		nseq, nnil, iter, nshared = 6000, 600, 600, 600
 		raceGlobals = []int{0, 1, 2, 3, 4, 5, 6, 7, 8, 9}
 	}
-	// exhaustive: every mask, all five kinds
+	// exhaustive: every mask, all five kinds (all features on)
 	for m := 0; m < 256; m++ {
-		g := &gen{rnd: rnd}
-		gopts := []GOpt{{Kind: "for", Scope: uint8(m), Ms: []Mw{{ID: 1}}}}
+		gopts := append([]GOpt{{Kind: "for", Scope: uint8(m), Ms: []Mw{{ID: 1}}}}, allOn...)
 		ops := []Op{{Kind: "handle", Key: 0, Hid: 11, Ms: []Mw{{ID: 2}}}}
 		for k := 0; k < 5; k++ {
 			ops = append(ops, Op{Kind: "serve", Key: 0, K: k})
 		}
-		addSeq(g, gopts, ops, "exhaustive-mask")
+		addSeq(gopts, ops, "exhaustive-mask")
+	}
+	// exhaustive: every combination of the feature switches, independent of the middleware scopes:
+	// global trailing-slash mode x per-route trailing-slash option x NoMethod x AutoOptions, with one middleware
+	// per scope constant and one for all scopes; all five request shapes
+	scoped := []GOpt{{Kind: "mw", Ms: []Mw{{ID: 6}}}}
+	for i, sc := range scopeConsts {
+		scoped = append(scoped, GOpt{Kind: "for", Scope: sc, Ms: []Mw{{ID: i + 1}}})
+	}
+	globalTS := [][]GOpt{nil, {{Kind: "flag", Flag: "FRedirect", B: true}}, {{Kind: "flag", Flag: "FIgnore", B: true}}}
+	routeTS := [][]TsOpt{nil, {{Redirect: true, B: true}}, {{Redirect: false, B: true}}, {{Redirect: true, B: false}}, {{Redirect: false, B: false}}}
+	noMethod := [][]GOpt{nil, {{Kind: "flag", Flag: "FNoMethod", B: true}}, {{Kind: "custom", K: "KNoMethod"}}}
+	autoOpt := [][]GOpt{nil, {{Kind: "flag", Flag: "FAutoOptions", B: true}}, {{Kind: "custom", K: "KOptions"}}, {{Kind: "default"}}}
+	for _, gt := range globalTS {
+		for _, rt := range routeTS {
+			for _, nm := range noMethod {
+				for _, ao := range autoOpt {
+					var gopts []GOpt
+					// seeded order of the independent groups
+					groups := [][]GOpt{scoped, gt, nm, ao}
+					for len(groups) > 0 {
+						i := rnd.Intn(len(groups))
+						gopts = append(gopts, groups[i]...)
+						groups = append(groups[:i], groups[i+1:]...)
+					}
+					ops := append([]Op{{Kind: "handle", Key: 0, Hid: 11, Ms: []Mw{{ID: 7}}, Ts: rt}}, sweep(0)...)
+					addSeq(gopts, ops, "exhaustive-flags")
+				}
+			}
+		}
 	}
 	for i := 0; i < nseq; i++ {
 		g := &gen{rnd: rnd}
-		addSeq(g, g.gopts(0), g.ops(), "random")
+		addSeq(g.gopts(0), g.ops(), "random")
 	}
 	for i := 0; i < nnil; i++ {
 		g := &gen{rnd: rnd}
-		addSeq(g, g.gopts(12), g.ops(), "random-nil")
+		addSeq(g.gopts(12), g.ops(), "random-nil")
+	}
+
+	// one Option VALUE used in several places: routes and routers, in every order
+	for i := 0; i < nshared; i++ {
+		g := &gen{rnd: rnd}
+		rec, cache := &recorder{}, optCache{}
+		pool := [][]Mw{g.ms(1, 2, 0), g.ms(1, 3, 0)}
+		if rnd.Pct(40) {
+			pool = append(pool, g.ms(1, 1, 0))
+		}
+		feat := func() []GOpt { // feature switches and scoped middleware around the shared option
+			out := append([]GOpt(nil), allOn...)
+			if rnd.Pct(50) {
+				out = append(out, GOpt{Kind: "for", Scope: g.scope(), Ms: g.ms(1, 1, 0)})
+			}
+			return out
+		}
+		globalUse := func(n int) []GOpt {
+			out := feat()
+			for _, k := range perm(rnd, len(pool))[:n] {
+				pos := rnd.Intn(len(out) + 1)
+				out = append(out, GOpt{})
+				copy(out[pos+1:], out[pos:])
+				out[pos] = GOpt{Kind: "mw", Ms: pool[k]}
+			}
+			return out
+		}
+		hid := 10
+		routeUse := func(key int, kind string) []Op {
+			hid++
+			return []Op{{Kind: kind, Key: key, Hid: hid, Ms: hx.Pick(rnd, pool), Ts: g.ts()}}
+		}
+		var runs []*routerRun
+		order := rnd.Intn(4)
+		switch order {
+		case 0: // route -> global: router A uses the values on routes, then router B (and C) registers them globally
+			a := newRun(feat(), "shared:route-then-global/A", rec, cache)
+			exec(a, append(append(routeUse(0, "handle"), routeUse(1, "handle")...), sweep(0)...))
+			b := newRun(globalUse(len(pool)), "shared:route-then-global/B", rec, cache)
+			exec(b, append(routeUse(0, "handle"), sweep(0)...))
+			exec(a, append(routeUse(1, "update"), sweep(1)...))
+			c := newRun(globalUse(1), "shared:route-then-global/C", rec, cache)
+			exec(c, append(routeUse(2, "handle"), sweep(2)...))
+			runs = []*routerRun{a, b, c}
+		case 1: // global -> route
+			a := newRun(globalUse(len(pool)), "shared:global-then-route/A", rec, cache)
+			exec(a, append(append(routeUse(0, "handle"), routeUse(1, "handle")...), sweep(0)...))
+			b := newRun(globalUse(1), "shared:global-then-route/B", rec, cache)
+			exec(b, append(routeUse(0, "handle"), sweep(0)...))
+			exec(a, sweep(1))
+			runs = []*routerRun{a, b}
+		case 2: // route -> route in one router, then the same router shape again (a constructor called twice)
+			gl := globalUse(1)
+			mk := func(tag string) *routerRun {
+				r := newRun(gl, "shared:constructor-twice/"+tag, rec, cache)
+				ops := []Op{{Kind: "handle", Key: 0, Hid: 11, Ms: pool[0]}, {Kind: "handle", Key: 1, Hid: 12, Ms: pool[0], Ts: g.ts()}, {Kind: "handle", Key: 2, Hid: 13, Ms: pool[1]}}
+				exec(r, append(append(ops, sweep(0)...), sweep(1)...))
+				return r
+			}
+			runs = []*routerRun{mk("first"), mk("second")}
+		default: // two routers alternating: every value is used globally in one and on routes in the other
+			a := newRun(append(feat(), GOpt{Kind: "mw", Ms: pool[0]}), "shared:alternating/A", rec, cache)
+			b := newRun(append(feat(), GOpt{Kind: "mw", Ms: pool[1]}), "shared:alternating/B", rec, cache)
+			exec(a, []Op{{Kind: "handle", Key: 0, Hid: 11, Ms: pool[1]}})
+			exec(b, []Op{{Kind: "handle", Key: 0, Hid: 12, Ms: pool[0]}})
+			c := newRun(globalUse(len(pool)), "shared:alternating/C", rec, cache)
+			exec(a, sweep(0))
+			exec(b, sweep(0))
+			exec(c, append([]Op{{Kind: "handle", Key: 0, Hid: 13, Ms: pool[0]}}, sweep(0)...))
+			runs = []*routerRun{a, b, c}
+		}
+		for _, r := range runs {
+			emit(r)
+		}
 	}
 
 	// concurrent NewRoute under the race detector
